@@ -58,7 +58,7 @@ class StandardEnvironment(Environment):
             student.threaded = threaded
         else:
             if trace:
-                start_trace()
+                start_trace(report=self.report)
             student = run(report=report, threaded=threaded)
             student.threaded = threaded
         self.fields = {
